@@ -36,6 +36,7 @@ def state_diffs(J, final, obs):
     chk("flag", bool(final["flag"]), obs["flag"])
     chk("lock held", final["lock"] != 63, obs["locked"])
     chk("sdret", bool(final["sdret"]), obs["sdret"])
+    chk("sdretw", bool(final.get("sdretw", False)), obs.get("sdretw", False))
     reg = sorted((final[f"regpos{j}"], j) for j in range(J) if final[f"regpos{j}"] != 7)
     chk("registry", [j for _, j in reg], obs["registry"])
     for j in range(J):
@@ -255,7 +256,7 @@ def main():
 
     ex = P.PopenExecutor()
     futs = [P.PopenFuture(["job", str(j)], timeout=(5.0 if W.hasto[j] else None)) for j in range(J)]
-    hs = {"acc": [False] * J, "rej": [False] * J, "res": [0] * J, "sdret": False, "crash": {}, "finished": []}
+    hs = {"acc": [False] * J, "rej": [False] * J, "res": [0] * J, "sdret": False, "sdretw": False, "crash": {}, "finished": []}
 
     def do_op(op, who, swallow):
         kind = op[0]
@@ -278,8 +279,7 @@ def main():
                 hs["res"][op[1]] = 3
         elif kind == "shutdown":
             ex.shutdown(wait=bool(op[1]))
-            if not op[1]:
-                hs["sdret"] = True
+            hs["sdret" if not op[1] else "sdretw"] = True
         elif kind in ("cancel", "done", "exception"):
             getattr(futs[op[1]], kind)()
         else:
@@ -318,7 +318,7 @@ def main():
 
     def observe():
         st = {"flag": ex._shutdown.is_set(), "locked": ex._lock.locked(),
-              "registry": [int(f.cmd[1]) for f in list(ex._futures)], "sdret": hs["sdret"]}
+              "registry": [int(f.cmd[1]) for f in list(ex._futures)], "sdret": hs["sdret"], "sdretw": hs["sdretw"]}
         for j in range(J):
             f = futs[j]
             e = f._exception
